@@ -48,9 +48,14 @@ class ndarray(_np.ndarray, metaclass=_Meta):
 
     def __new__(subtype, shape, dtype=float, buffer=None, offset=0, strides=None, order=None):
         if buffer is not None and isinstance(buffer, _np.ndarray) and _np.ndarray.dtype.__get__(buffer) == object:
-            obj = _np.ndarray.__new__(subtype, shape, object)
-            obj[...] = buffer.reshape(shape)
-            return obj
+            # ndarray.__new__(subtype, shape, float, buffer) makes an array that SHARES the buffer's memory
+            # (in-place updates of either are seen by both): a view of the object array has the same aliasing
+            try:
+                return _np.asarray(buffer).reshape(shape).view(subtype)
+            except Exception:
+                obj = _np.ndarray.__new__(subtype, shape, object)
+                obj[...] = buffer.reshape(shape)
+                return obj
         return _np.ndarray.__new__(subtype, shape, dtype, buffer, offset, strides, order)
 
     @property
